@@ -142,9 +142,10 @@ func TestC06(t *testing.T) {
 			concurrentDurability(t, r, dir, i)
 		}
 		serverLevel(t, r, dir)
+		auditFileAcrossRestarts(t, r, dir)
 	}
 	r.Require("calls_with_one_record", "calls_with_no_record", "denied_calls_recorded", "unchanged_conditional_gets", "write_failures_injected", "sync_failures_injected",
-		"mutations_logged_before_effect", "concurrent_lines", "concurrent_durability_checks", "server_level_denials")
+		"mutations_logged_before_effect", "concurrent_lines", "concurrent_durability_checks", "server_level_denials", "audit_file_reopens")
 	r.Rule("sequential: seeded histories of ~30 calls (all 9 operations, callers with random rule sets incl. none, names incl. empty and reserved); per call the records captured between invocation and return are compared with the expectation table; in a third of the histories the sink fails the Write or the Sync of one chosen record. Concurrent: 16 goroutines x mixed calls with unique (user, secret) pairs on a real audit file; every line must parse and the multiset of records must equal the expected one. Distinct = (operation, authorised?, records expected, failure injected)")
 }
 
@@ -578,4 +579,66 @@ func serverLevel(t *testing.T, r *evid.Run, dir string) {
 			}
 		}
 	}
+}
+
+// auditFileAcrossRestarts: records are APPENDED: after the server is restarted on the same audit file,
+// everything recorded before is still there, followed by the new records, each one complete line.
+func auditFileAcrossRestarts(t *testing.T, r *evid.Run, dir string) {
+	logPath := filepath.Join(dir, "restart-audit.log")
+	dbPath := filepath.Join(dir, "restart.db")
+	var want []string // "user action secret" in order
+	for gen := 0; gen < 4; gen++ {
+		aw, err := audit.NewFile(logPath)
+		if err != nil {
+			t.Fatal(err)
+		}
+		d, err := db.Open(dbPath, realdb.DummyKey("c06r"), aw)
+		if err != nil {
+			t.Fatal(err)
+		}
+		for k := 0; k < 5+gen; k++ {
+			user := fmt.Sprintf("gen%d-k%d@verif", gen, k)
+			c := realdb.Caller(user, []refmodel.Rule{{Actions: actions, Patterns: []string{"*"}}})
+			name := fmt.Sprintf("s%d", k%3)
+			if k%2 == 0 {
+				d.Put(c, name, []byte(fmt.Sprintf("value-%d-%d-with-some-length-so-that-lines-differ-in-size-%s", gen, k, strings.Repeat("x", k*7))))
+				want = append(want, user+" put "+name)
+			} else {
+				d.Get(c, name)
+				want = append(want, user+" get "+name)
+			}
+		}
+		aw.Close()
+		r.Count("audit_file_reopens", 1)
+		r.Eval(1)
+		raw, _ := os.ReadFile(logPath)
+		var got []string
+		for i, line := range bytes.Split(bytes.TrimSuffix(raw, []byte("\n")), []byte("\n")) {
+			var e audit.Entry
+			dec := json.NewDecoder(bytes.NewReader(line))
+			dec.DisallowUnknownFields()
+			if err := dec.Decode(&e); err != nil || dec.More() {
+				r.Violation("audit-line-broken-after-restart", -1, fmt.Sprintf("after %d restart(s) line %d of the audit file is not one complete record: %q", gen, i+1, line), nil)
+				return
+			}
+			got = append(got, fmt.Sprintf("%s %s %s", e.Principal.User, e.Action, e.Secret))
+		}
+		if strings.Join(got, "|") != strings.Join(want, "|") {
+			r.Violation("audit-records-lost-across-restart", -1, fmt.Sprintf("after %d restart(s) the audit file holds %d records, %d were written since the file was created; first difference at record %d", gen, len(got), len(want), firstDiff(got, want)+1), map[string]any{"file": string(raw)})
+			return
+		}
+		r.Distinct(fmt.Sprintf("audit file after %d restarts", gen))
+	}
+}
+
+func firstDiff(a, b []string) int {
+	for i := 0; i < len(a) && i < len(b); i++ {
+		if a[i] != b[i] {
+			return i
+		}
+	}
+	if len(a) < len(b) {
+		return len(a)
+	}
+	return len(b)
 }
